@@ -5,6 +5,8 @@ CONSTANTS
   MaxRows2 = 2
   NumsS = {0, 1, 3}
   NumsI = {0, 1, 3}
+  Usings = {0, 1, 2}
+  Lite = TRUE
 INVARIANT Conservation
 INVARIANT ImputeComplete
 INVARIANT LongWindow
